@@ -60,7 +60,9 @@ type propSpec struct {
 	Binaries      bool // needs the real rdpgw / rdpgw-auth binaries
 }
 
-var specs = map[string]propSpec{}
+var specs = map[string]propSpec{
+	"C09": {Race: true},
+}
 
 func spec(id string) propSpec {
 	s, ok := specs[id]
@@ -196,7 +198,7 @@ func check(id, tier string) int {
 			outs[i] = of
 			env := append(goEnv(), "GOMAXPROCS=1", "VERIF_BUILD_DIR="+bd)
 			if sp.Race {
-				env = append(env, "GORACE=halt_on_error=0 history_size=2 log_path="+filepath.Join(bd, "out", fmt.Sprintf("race%d", i)))
+				env = append(env, "GORACE=halt_on_error=0 exitcode=0 history_size=2 log_path="+filepath.Join(bd, "out", fmt.Sprintf("race%d", i)))
 			}
 			cmd := exec.Command(bin, "-prop", id, "-tier", tier, "-shard", fmt.Sprintf("%d/%d", i, n), "-seed", fmt.Sprint(seed), "-out", of, "-budget", budget.String())
 			cmd.Dir = root
@@ -285,21 +287,37 @@ func check(id, tier string) int {
 		}
 		os.MkdirAll(rdir, 0o755)
 		rf := filepath.Join(rdir, fmt.Sprintf("%d.json", nviol+len(unrepro)+1))
+		os.Remove(rf)
 		doc := map[string]any{"property": id, "sig": sig, "detail": v.Detail, "count": v.Count, "replay": v.Replay}
 		b, _ := json.MarshalIndent(doc, "", " ")
 		os.WriteFile(rf, b, 0o644)
 		// re-execute 5 times from the replay file before believing it
 		okRuns := 0
 		if v.Replay != nil && v.Replay["noreplay"] == nil {
+			alt, _ := v.Replay["alt_sig"].(string)
+			var rw sync.WaitGroup
+			oks := make([]bool, 5)
 			for k := 0; k < 5; k++ {
-				if replaySig(bin, sp, id, rf, sig) {
+				rw.Add(1)
+				go func(k int) {
+					defer rw.Done()
+					oks[k] = replaySig(bin, sp, id, rf, k, sig, alt)
+				}(k)
+			}
+			rw.Wait()
+			for _, o := range oks {
+				if o {
 					okRuns++
 				}
 			}
 		} else {
 			okRuns = 5
 		}
-		if okRuns < 5 {
+		need := 5
+		if f, ok := v.Replay["min_repro"].(float64); ok && f >= 1 {
+			need = int(f)
+		}
+		if okRuns < need {
 			unrepro = append(unrepro, fmt.Sprintf("%s (%d/5 replays)", sig, okRuns))
 			continue
 		}
@@ -367,12 +385,18 @@ func check(id, tier string) int {
 	return 0
 }
 
-func replaySig(bin string, sp propSpec, id, rf, sig string) bool {
-	of := rf + ".out"
+func replaySig(bin string, sp propSpec, id, rf string, k int, sig, alt string) bool {
+	of := fmt.Sprintf("%s.out%d", rf, k)
 	defer os.Remove(of)
+	defer func() {
+		m, _ := filepath.Glob(fmt.Sprintf("%s.race%d.*", rf, k))
+		for _, f := range m {
+			os.Remove(f)
+		}
+	}()
 	env := append(goEnv(), "GOMAXPROCS=1")
 	if sp.Race {
-		env = append(env, "GORACE=halt_on_error=0 history_size=2 log_path="+rf+".race")
+		env = append(env, "GORACE=halt_on_error=0 exitcode=0 history_size=2 log_path="+fmt.Sprintf("%s.race%d", rf, k))
 	}
 	cmd := exec.Command(bin, "-prop", id, "-replay", rf, "-out", of)
 	cmd.Dir = root
@@ -387,7 +411,7 @@ func replaySig(bin string, sp propSpec, id, rf, sig string) bool {
 		return false
 	}
 	for _, v := range r.Violations {
-		if v.Sig == sig {
+		if v.Sig == sig || (alt != "" && v.Sig == alt) {
 			return true
 		}
 	}
